@@ -250,3 +250,14 @@ Proof.
   - intros p Hin. unfold excl_pats in Hin. destruct excl as [c|]; [|destruct Hin].
     eapply read_ignore_positive; [now apply Hex|exact Hpe|exact Hin].
 Qed.
+
+(* ------------------------------------------------------------------ *)
+(* correspondence entry point: the guards of the theorems on a case    *)
+From Coq Require Import String.
+Definition c49_guard (excl : option String.string)
+           (fs : list (list String.string * String.string))
+           (qs : list (list String.string * bool)) : out :=
+  let fs' := map (fun f => (map unhex (fst f), unhex (snd f))) fs in
+  let ex := match excl with Some e => Some (unhex e) | None => None end in
+  OList (OBool (wide_case ex fs') :: OBool (positive_case ex fs') ::
+         map (fun q => let p := map unhex (fst q) in OBool (path_ok p && no_reincluded_ancestor ex fs' p)) qs).
